@@ -1026,6 +1026,14 @@ func (f *btcsel) genHistory(r *hx.Run, id int) {
 			seq := len(f.pending) - 1
 			order := r.Rng.Perm(mn[1])
 			signed := 0
+			doSign := func(k int) { // a completed round is always followed by the id of the signed transaction
+				sres := r.Do(fmt.Sprintf("sign %d %d", seq, k))
+				if strings.HasPrefix(sres, "ok final") {
+					r.Do(fmt.Sprintf("settxid %d %s", seq, f.pending[seq].txid))
+					signedTx++
+					live = append(live, f.pending[seq].fresh...)
+				}
+			}
 			for _, k := range order {
 				if signed == mn[0] {
 					break
@@ -1033,24 +1041,17 @@ func (f *btcsel) genHistory(r *hx.Run, id int) {
 				if r.Rng.Chance(1, 8) {
 					r.Do(fmt.Sprintf("signbad %d %d", seq, k))
 				}
-				sres := r.Do(fmt.Sprintf("sign %d %d", seq, k))
+				doSign(k)
 				signed++
 				if r.Rng.Chance(1, 8) {
-					r.Do(fmt.Sprintf("sign %d %d", seq, k))
+					doSign(k)
 				}
-				if strings.HasPrefix(sres, "ok final") {
-					r.Do(fmt.Sprintf("settxid %d %s", seq, f.pending[seq].txid))
-					signedTx++
-					for _, t := range f.pending[seq].fresh {
-						live = append(live, t)
-					}
-				}
-				if r.Rng.Chance(1, 6) { // stop half way: the change output never materialises
+				if r.Rng.Chance(1, 6) { // stop half way: the change output may never materialise
 					break
 				}
 			}
 			if r.Rng.Chance(1, 6) {
-				r.Do(fmt.Sprintf("sign %d %d", seq, order[len(order)-1]))
+				doSign(order[len(order)-1])
 			}
 		}
 		if strings.HasPrefix(res, "ok") {
